@@ -306,6 +306,11 @@ impl Vm {
   ) -> ExecutionResult {
     match self.compile(repl, main_module, source, file_id) {
       Ok(fun) => {
+        #[cfg(feature = "verif")]
+        if crate::verif::compile_only() {
+          return ExecutionResult::Exit(0);
+        }
+
         self.prepare(fun);
         self.execute(ExecutionMode::Normal)
       },
@@ -337,6 +342,9 @@ impl Vm {
   fn execute(&mut self, mode: ExecutionMode) -> ExecutionResult {
     unsafe {
       loop {
+        #[cfg(feature = "verif")]
+        self.verif_before_step();
+
         // get the current instruction
         let op_code: ByteCode = ByteCode::from_byte_unchecked(self.read_byte());
 
@@ -457,5 +465,57 @@ impl Vm {
         }
       }
     }
+  }
+}
+
+#[cfg(feature = "verif")]
+impl Vm {
+  /// Validate the next op code and record a trace point if requested
+  #[inline]
+  unsafe fn verif_before_step(&mut self) {
+    unsafe {
+      let raw = ptr::read(self.ip);
+      if raw as usize >= ByteCode::VARIANT_COUNT {
+        panic!("VERIF-HEAP: invalid op code {raw:#x} at {:p}", self.ip);
+      }
+
+      if crate::verif::tracing() {
+        let fun = self.current_fun;
+        let start = fun.chunk().instructions().as_ptr();
+        let pc = self.ip.offset_from(start) as usize;
+        crate::verif::note_step(
+          start as usize,
+          pc,
+          self.fiber.verif_depth(),
+          self.fiber.verif_handlers_in_frame(),
+        );
+      }
+    }
+  }
+
+  /// Run a collection now with the requested sweep (1 nursery, 2 full)
+  pub fn verif_collect(&self, kind: u8) {
+    laythe_core::verif::set_sweep_kind(kind);
+    self.gc.borrow_mut().collect_garbage(self);
+  }
+
+  /// A summary of the allocator's bookkeeping
+  pub fn verif_heap_stats(&self) -> laythe_core::verif::HeapStats {
+    self.gc.borrow().verif_stats()
+  }
+
+  /// Every block currently owned by the allocator
+  pub fn verif_heap_blocks(&self) -> Vec<laythe_core::verif::HeapBlock> {
+    self.gc.borrow().verif_blocks()
+  }
+
+  /// Every entry of the string intern table
+  pub fn verif_intern(&self) -> Vec<laythe_core::verif::InternEntry> {
+    self.gc.borrow().verif_intern()
+  }
+
+  /// How many fibers are waiting in the run queue
+  pub fn verif_queue_len(&self) -> usize {
+    self.fiber_queue.len()
   }
 }
